@@ -100,6 +100,8 @@ class Stats:
             self.excluded[k] += v
         self.noops += int(info.get('noops', 0))
         self.steps += int(info.get('steps', 0))
+        for k, v in (info.get('counters') or {}).items():
+            self.extra[k] = self.extra.get(k, 0) + v
 
     def to_json(self):
         return {
